@@ -20,7 +20,7 @@ def litOk (pat : String) (lab : Str) : Bool := matchLit pat.toList lab == some [
 /-- `www` or `www<digit>`, ignoring case -/
 def wwwOk (lab : Str) : Bool :=
   match matchLit "www".toList lab with
-  | some r => r.isEmpty || (r.length == 1 && r.all isAsciiDigit)
+  | some r => r.isEmpty || (r.length == 1 && r.all isReDigit)
   | none => false
 
 /-- the labels `(?:www\d?|mobile|amp|m)` (re.I) matches entirely -/
@@ -84,7 +84,7 @@ def wwwHere (s : Str) : Option Str :=
   | none => none
   | some r =>
     match r with
-    | d :: r' => if isAsciiDigit d then (dotHere r').or (dotHere r) else dotHere r
+    | d :: r' => if isReDigit d then (dotHere r').or (dotHere r) else dotHere r
     | [] => none
 
 theorem wwwHere_label (lab rest : Str) (hl : '.' ∉ lab) :
@@ -98,7 +98,7 @@ theorem wwwHere_label (lab rest : Str) (hl : '.' ∉ lab) :
     simp only [Option.map_some]
     cases r with
     | nil =>
-      have : isAsciiDigit '.' = false := by decide
+      have : isReDigit '.' = false := by decide
       simp [dotHere, this]
     | cons d ds =>
       have hd : d ≠ '.' := fun e => hr (by simp [e])
@@ -110,8 +110,8 @@ theorem wwwHere_label (lab rest : Str) (hl : '.' ∉ lab) :
         simpa using this
       rw [h1, dotHere_label ds rest hds]
       cases ds with
-      | nil => by_cases hdig : isAsciiDigit d = true <;> simp [hdig]
-      | cons e es => by_cases hdig : isAsciiDigit d = true <;> simp [hdig]
+      | nil => by_cases hdig : isReDigit d = true <;> simp [hdig]
+      | cons e es => by_cases hdig : isReDigit d = true <;> simp [hdig]
 
 theorem afterChar_dot (r : Str) : afterChar '.' r = dotHere r := by
   cases r with
@@ -136,9 +136,9 @@ theorem www_eq (s : Str) :
     cases r with
     | nil => rfl
     | cons d r' =>
-      by_cases hd : isAsciiDigit d = true
+      by_cases hd : isReDigit d = true
       · simp [afterDigit, hd]
-      · have hd' : isAsciiDigit d = false := by simpa using hd
+      · have hd' : isReDigit d = false := by simpa using hd
         simp [afterDigit, hd']
 
 theorem irrelevantLabelHere_eq (amp : Bool) (s : Str) :
